@@ -172,6 +172,10 @@ def gcFam (s : RState) (f : Fam) (cutoff : Int) : RState :=
 
 def gc (s : RState) (cutoff : Int) : RState := gcFam (gcFam s .v4 cutoff) .v6 cutoff
 
+/-- one tick of the Redis store's background expiry loop at cached clock `clock` (same cutoff rule
+as the memory store: `MemStore.loopCutoff`) -/
+def loopTick (s : RState) (clock life : Int) : RState := gc s (MemStore.loopCutoff clock life)
+
 /-- `populateProm`: (infohashes, seeders, leechers), GET of the six counters -/
 def totals (s : RState) : Int × Int × Int := (s.c.ih4 + s.c.ih6, s.c.s4 + s.c.s6, s.c.l4 + s.c.l6)
 
